@@ -91,6 +91,10 @@ def run(chk, program, tier):
     chk.floor('dump_membership_tests', n, 2)
     dump_file(chk, program)
     json_rules(chk, program)
+    message_fields(chk, program)
+    # value / raw_value producers of every generated field (C01 GEN-DEC slots): what reaches to_json is what the type table prescribes
+    from .. import rules_gen as RG
+    RG.gen_dec(chk, program, slots=['value', 'raw_value'], rule='JSON-TYPES', with_msg=False, with_flow=False)
     # JSON-RAW-FIRST
     chk2 = _Null()
     sites = E.gen_enc(chk2, program, want=())
@@ -107,6 +111,29 @@ class _Null:
     def __getattr__(self, n):
         return lambda *a, **k: True
     units = {}
+
+def message_fields(chk, program):
+    """to_json dumps the whole __dict__ of the message; from_json rebuilds only `fields` as objects.  Every other dataclass field therefore
+    travels as plain JSON: its annotation must be JSON-native (or one of the inventoried attributes whose lossy form is harmless to the
+    encoders).  A container of objects cached on the message would come back as dicts."""
+    c = program.cls('message', 'NMEA2000Message')
+    native = {'int', 'str', 'float', 'bool', 'None'}
+    inventoried = {'ttl': 'timedelta | None', 'fields': 'list[NMEA2000Field]', 'timestamp': 'datetime', 'source_iso_name': 'IsoName | None', 'raw_can_data': 'bytes | str | None'}
+    n = 0
+    for st in c.body:
+        if isinstance(st, ast.AnnAssign) and isinstance(st.target, ast.Name):
+            n += 1
+            name = st.target.id
+            ann = ast.unparse(st.annotation)
+            parts = {x.strip() for x in ann.replace('Optional[', '').replace(']', '').split('|')}
+            ok = parts <= native or (name in inventoried and ann.replace(' ', '') == inventoried[name].replace(' ', ''))
+            chk.check(ok, 'JSON-BACK', f"NMEA2000Message.{name}::json-form", file=MSG, line=st.lineno, expected='JSON-native annotation, or an inventoried attribute (ttl, fields, timestamp, source_iso_name, raw_can_data)',
+                      found=ann, detail='' if ok else 'to_json dumps every attribute of the message and from_json rebuilds only `fields`: this attribute comes back as plain dicts/lists and whatever reads it afterwards (e.g. the encoders through get_field_by_id) fails')
+    tj = program.fn('message', 'NMEA2000Message.to_json')
+    dumps = [x for x in ast.walk(tj) if isinstance(x, ast.Call) and ast.unparse(x.func) == 'orjson.dumps']
+    whole = bool(dumps) and dumps[0].args and ast.unparse(dumps[0].args[0]) in ('self.__dict__', 'self', 'asdict(self)', 'dataclasses.asdict(self)')
+    chk.check(whole, 'JSON-BACK', 'to_json::dumps-whole-object', file=MSG, line=tj.lineno, func='to_json', expected='the whole message object is serialised', found=ast.unparse(dumps[0].args[0]) if dumps and dumps[0].args else None, nontrivial=False)
+    chk.floor('message_dataclass_fields', n, 10)
 
 def dump_file(chk, program):
     init = program.fn('decoder', 'NMEA2000Decoder.__init__')
